@@ -113,7 +113,9 @@ namespace awkward {
     GrowableBuffer<int8_t> tags_;
     GrowableBuffer<int64_t> index_;
     std::vector<BuilderPtr> contents_;
-    int8_t current_;
+    // (a position among contents_, or -1; not int8_t like the tags: the 129th
+    // distinct type must not wrap around to a negative position)
+    int64_t current_;
   };
 }
 
